@@ -304,6 +304,9 @@ def blanks(rng, minimum=1):
     return bytes(rng.choice(b" \t") for _ in range(rng.choice([minimum, minimum, 1, 2, 4])))
 
 
+MAX_LINE = 4095          # MAX_LINESIZE - 1: the longest line (without its newline) the parser reads in one piece
+
+
 def render_ac(rng, nodes, tag_ws=0.0):
     """bytes of the document; fills in node.line / node.close_line. tag_ws = probability of blanks
     before the `>` of a section tag"""
@@ -328,15 +331,24 @@ def render_ac(rng, nodes, tag_ws=0.0):
             if n.kind == "blank":
                 n.line = emit(rng.choice([b"", b"  ", b"\t", b"\r"]))
             elif n.kind == "comment":
-                n.line = emit(ind + b"#" + n.text)
+                text = n.text
+                if getattr(n, "longtail", None) is not None:
+                    # an over-long comment: blanks up to the buffer size of the parser (MAX_LINESIZE - 1
+                    # bytes), then text that looks like a directive - it is still the same comment
+                    text = n.text + b" " * max(0, n.longat - len(ind) - 1 - len(n.text)) + n.longtail
+                n.line = emit(ind + b"#" + text)
             elif n.kind == "opt":
-                n.line = emit(ind + words(n) + eol(rng))
+                b = ind + words(n) + eol(rng)
+                n.too_long = len(b) > MAX_LINE
+                n.line = emit(b)
             elif n.kind == "close":
                 n.line = emit(ind + b"</" + n.name + b">" + eol(rng))
             else:
                 pre = blanks(rng, 0) if rng.random() < 0.15 else b""
                 post = blanks(rng) if rng.random() < tag_ws else b""
-                n.line = emit(ind + b"<" + pre + words(n) + post + b">" + eol(rng))
+                b = ind + b"<" + pre + words(n) + post + b">" + eol(rng)
+                n.too_long = len(b) > MAX_LINE
+                n.line = emit(b)
                 go(n.body, depth + 1)
                 if n.close is not None:
                     pre = blanks(rng, 0) if rng.random() < 0.1 else b""
@@ -410,6 +422,10 @@ def ac_expected(table, flags, defcb, nodes, nlines, cb_refuses, def_refuses=Fals
                 continue
             if n.kind == "close":
                 raise Reject(n.line, "stray close")
+            if getattr(n, "too_long", False):
+                # a directive / section tag longer than the line buffer is an error of that line (a comment
+                # of any length is a comment)
+                raise Reject(n.line, "line too long")
             o = find(n.name)
             if o is None:
                 if not defcb and not (flags & QAC_IGNOREUNKNOWN):
